@@ -142,6 +142,10 @@ def run(prog, tier) -> Result:
                     if neg_known is not None and rev_val is not None and rev_val != neg_known:
                         return ("dispersal order does not follow the sign of the remainder",
                                 f"remainder negative: {neg_known}, errors sorted descending: {rev_val}")
+                    if len(e[1]) >= 2 and (neg_known is None or rev_val is None):
+                        return ("dispersal order does not follow the sign of the remainder",
+                                f"on this path the sign of the remainder is {'unknown' if neg_known is None else ('negative' if neg_known else 'positive')} "
+                                f"and the sort direction {'is not determined by it' if rev_val is None else ('descending' if rev_val else 'ascending')}")
                     if facs:
                         from ..contracts import _sign_of_rf
                         cst = facs[0].as_constant()
@@ -171,6 +175,20 @@ def run(prog, tier) -> Result:
                         return ("portions are adjusted by different amounts", repr(deltas))
                     rfin = st.norm(rem.amount.rf)
                     zero = Num(RF.const(0), "int")
+                    # every adjustment has the sign of the remainder it uses up (|remainder| shrinks): the remainder
+                    # before dispersal is rem0 = receiver - sum of the once-rounded shares
+                    rem0_ = a_self
+                    for i in range(n):
+                        rem0_ = rem0_ - st.rnd(0, (a_self * rs[i] / tot) / qn) * qn
+                    rem0_ = st.norm(rem0_)
+                    neg_ = known_truth(st, CmpV("<", Num(rem0_, "exact"), zero))
+                    d_pos = deltas[0].equals(qn)
+                    d_neg = deltas[0].equals(RF.const(0) - qn)
+                    if neg_ is None or not (d_pos or d_neg) or (neg_ and not d_neg) or (not neg_ and not d_pos):
+                        return ("adjustments do not have the sign of the remainder they disperse",
+                                f"remainder before dispersal {rem0_!r} is "
+                                f"{'negative' if neg_ else 'positive' if neg_ is False else 'of unknown sign on this path'}, "
+                                f"each adjusted portion changes by {deltas[0]!r}")
                     for t in range(1, len(deltas) + 1):
                         before = rfin + RF.const(t) * deltas[0]
                         if known_truth(st, CmpV("!=", Num(before, "exact"), zero)) is not True:
